@@ -79,7 +79,7 @@ pub fn vocab(code: &str) -> Vocab {
     Vocab { lang: code.to_string(), words, func, titles, letters, accents }
 }
 
-pub const SEPS: &[&str] = &[" ", " ", " ", "-", ", ", "  ", " & ", ". ", "\u{00A0}", "\u{2014}", "; ", "\t", "'", "/", " - ", "   ", " -- ", "  -  "];
+pub const SEPS: &[&str] = &[" ", " ", " ", "-", ", ", "  ", " & ", ". ", "\u{00A0}", "\u{2014}", "; ", "\t", "'", "/", " - ", "   ", " -- ", "  -  ", " ", " ", "\u{1f}", "\u{7f}", "\u{96}", "\u{2013}", "\u{2011}", "\u{2026}", "\u{0B}"];
 
 impl Vocab {
     pub fn word(&self, r: &mut Rng) -> String {
@@ -592,9 +592,24 @@ pub fn relatives_case(code: &str, v: &Vocab, r: &mut Rng, name: String) -> Case 
     Case { name, lang: code.to_string(), stream: "F-store-relatives", ops }
 }
 
+/// one record whose title shares more than 256 distinct grams with the query that types it verbatim (counters,
+/// candidate selection and match vectors far beyond their everyday sizes), next to two ordinary records
+pub fn long_title_case(code: &str, v: &Vocab, r: &mut Rng, name: String) -> Case {
+    let nwords = r.range(17, 22);
+    let title: String = (0..nwords).map(|_| { let l = r.range(14, 18); (0..l).map(|_| *r.pick(&v.letters)).collect::<String>() }).collect::<Vec<_>>().join(" ");
+    let mut ops = vec![Op::New, Op::Limit(10), Op::Add(1, 5, v.title(r)), Op::Add(2, 9, title.clone()), Op::Add(3, 7, v.title(r))];
+    ops.push(Op::Search(title.clone()));
+    ops.push(Op::Prepare(title.clone(), 10));
+    let half: String = title.chars().take(title.chars().count() / 2).collect();
+    ops.push(Op::Search(half));
+    ops.push(Op::Search(String::new()));
+    Case { name, lang: code.to_string(), stream: "F-store-long-title", ops }
+}
+
 pub fn store_cases(code: &str, r: &mut Rng, n: usize) -> Vec<Case> {
     let v = vocab(code);
     let mut cases = vec![];
+    cases.push(long_title_case(code, &v, r, format!("long-title-{}", code)));
     for i in 0..n {
         cases.push(relatives_case(code, &v, r, format!("relatives-{}-{}", code, i)));
         if i % 6 == 5 && i % 12 == 11 { cases.push(big_hit_case(code, r, format!("store-{}-{}", code, i))); continue; }
